@@ -24,6 +24,42 @@ def run(ctx):
     r3(ctx)
     r4(ctx)
     tls_wrap_contained(ctx, "C05.R5")
+    # "the server always closes that connection": also when the body proves malformed only while the application reads it
+    # (chunk framing, trailer fields) -- C07.R3 under this property
+    from . import c07
+    c07.chunk_error_closes(ctx, "C05.R2")
+    ctx.rule("C05.R6", "K10", "no regular expression applied to client bytes can backtrack catastrophically: no unbounded repetition of an alternative that is itself an unbounded repetition")
+    catastrophic_regexes(ctx, "C05.R6")
+
+
+def catastrophic_regexes(ctx, rid):
+    """"the worker keeps running and serves the next connection": a pattern like `"(?:[^"\\]+|\\.)*"` matches the same language
+    as `"(?:[^"\\]|\\.)*"` but lets a backtracking matcher cut a run of characters into iterations in exponentially many ways;
+    an unterminated quoted string of a few dozen bytes then pins the worker inside one regex call (no heartbeat, no signal
+    handler).  Every pattern the http layer applies (module-level constants of gunicorn.http.* and gunicorn.util) is parsed
+    (re's own parser; the pattern is data) and searched for that shape."""
+    repo = ctx.repo
+    from .. import regexset
+    from ..index import Regex
+    n = 0
+    for mn in ("gunicorn.http.message", "gunicorn.http.body", "gunicorn.http.wsgi", "gunicorn.http.parser", "gunicorn.http.unreader", "gunicorn.util", "gunicorn.glogging"):
+        if mn not in repo.modules:
+            continue
+        m = repo.module(mn)
+        for st in m.tree.body:
+            if isinstance(st, ast.Assign) and len(st.targets) == 1 and isinstance(st.targets[0], ast.Name):
+                try:
+                    v = repo.fold(m, st.value, symbolic=True)
+                except Exception:
+                    continue
+                if isinstance(v, Regex):
+                    n += 1
+                    why = regexset.nested_unbounded(v.pattern, v.flags)
+                    ctx.check(rid, why is None, "%s|%s|nested-unbounded-repetition" % (rid, st.targets[0].id), "%s: %s" % (m.relpath, st.targets[0].id),
+                              "the pattern %s = %r contains %s: on an input that almost matches (an unterminated quoted string, say) the matcher tries exponentially many ways to cut the run "
+                              "into iterations -- a few dozen client bytes stall the worker inside one regex call" % (st.targets[0].id, v.pattern if len(str(v.pattern)) < 160 else str(v.pattern)[:160] + "...", why),
+                              "linear-time pattern")
+    ctx.floor(rid, "regex constants of the http layer", n, 5)
 
 
 def _handler_types(repo, f, h):
